@@ -27,6 +27,7 @@ func init() {
 		ID: "C06", Level: "other",
 		Pkgs:    []string{"./internal/generate/golang", "./internal/ebnf/parser/spec"},
 		Prepare: prepareAll,
+		Extra:   lalrConformance,
 		Select: []Selector{
 			{Units: `parser/spec\.Spec\.LALRParsingTable$`},
 			// what reaches the table builder: the directive actions (associativity as written, levels in source order) and the
@@ -37,7 +38,7 @@ func init() {
 			{Units: `generate/golang\.generator\.generateParser$`, Kinds: nonSafety},
 			{Units: `generate/golang\.Generate$`, Kinds: nonSafety},
 		},
-		Explain: "Proved (all inputs): LALRParsingTable passes exactly (Grammar, Precedences) to lookahead.BuildParsingTable, returns its table unchanged and an error iff it reports one; generateParser/Generate return that error and write no parser.go. NOT decided by this technique: the LALR(1) construction and conflict resolution themselves (3 kLoC of generic dependency code): assumed contract, exercised only by a bounded conformance run against the reference constructor (see coverage.bounded).",
+		Explain: "Proved (all inputs): LALRParsingTable passes exactly (Grammar, Precedences) to lookahead.BuildParsingTable, returns its table unchanged and an error iff it reports one; generateParser/Generate return that error and write no parser.go. NOT decided by this technique: the LALR(1) construction and conflict resolution themselves (3 kLoC of generic dependency code): assumed contract; its error-iff-conflict half is compared with the reference LALR(1)+precedence constructor on a corpus of specifications (BOUNDED stand-in, see coverage.bounded; the tables themselves are not compared).",
 		Trusted: []string{"assumed contract of lookahead.BuildParsingTable (A-DEP)"},
 	})
 }
